@@ -1776,6 +1776,15 @@ fn build_cases(tier: &str, seed: u64, count: Option<u64>) -> Vec<(Value, String)
             v.push((r, format!("hist:{}", kind)));
         }
     }
+    // message indices around the point where `index + 100 000` (the detector's periodic refresh) leaves the u32 range;
+    // the traces are short, so the u32 message index itself (a design limit of the crate) is never exhausted
+    for (j, off) in [100_010u64, 100_000, 99_999, 99_990, 60_000, 20_000].iter().enumerate() {
+        for rep in 0..scale.min(3) as usize {
+            let mut r = r_gen("dlt", ["lc", "lcspec", "mixed"][(j + rep) % 3], rng.next(), false);
+            r["start"] = json!(u32::MAX as u64 - off);
+            v.push((r, "index_limit".to_string()));
+        }
+    }
     // grammar-based text
     let n_text = count.unwrap_or(40 * scale);
     for ext in ["asc", "txt", "log"] {
